@@ -259,6 +259,7 @@ def PhaseOk (cfg : Cfg) (v : View) (seenX seenY : Int) : Prop :=
     v.tr.sender = oth v.x ∧ v.tr.bytes = tokenBytes v.ax v.ay ∧ (∃ d f, v.sx.s.st = .useToken d f) ∧
     v.sx.s.lastBusActivity = some p1 ∧ v.sy.s.st = .checkTokenPass .first ∧
     v.sy.s.lastBusActivity = some (v.tr.start + (cfg.b33 : Nat)) ∧ v.sy.s.pendingBytes = 0 ∧ v.sy.rx = [] ∧
+    v.idle = false ∧ v.ly = v.tr.start + (cfg.b33 : Nat) ∧
     v.tr.start + (cfg.ce 2 : Nat) ≤ p1 ∧ p1 ≤ seenX ∧ seenX ≤ p1 + (cfg.b33 : Nat) ∧
     p1 + (cfg.P : Nat) + (cfg.ce 0 : Nat) ≤ v.tr.start + (cfg.slot : Nat)
   | .gap g =>
@@ -432,19 +433,19 @@ theorem rinv_send_x {cfg : Cfg} {n : Net} {v : View} (h : RInv cfg n v) (hok : c
     rw [seen_set_self _ _ _ hsl, seen_set_other _ _ _ _ hne]
     exact hphs
 
-def View.swap (v : View) (c : Ctx) (now : Int) : View :=
+def View.swap (v : View) (c : Ctx) (ly' : Int) (now : Int) : View :=
   { x := oth v.x, sx := upSt v.sy c, sy := v.sx, ax := v.ay, ay := v.ax, old := v.old, tr := v.tr,
-    ph := .hold now, idle := false, ly := v.ly, tl := now }
+    ph := .hold now, idle := false, ly := ly', tl := now }
 
 /-- The poll in which the other side `y` accepts the token: the roles swap. -/
 theorem rinv_swap_y {cfg : Cfg} {n : Net} {v : View} (h : RInv cfg n v) (now : Int) (htl : v.tl ≤ now)
-    (hs : n.bus.seen.getD (oth v.x) 0 ≤ now) (inc : Bytes) (c : Ctx)
+    (hs : n.bus.seen.getD (oth v.x) 0 ≤ now) (inc : Bytes) (c : Ctx) (ly' : Int)
     (hd : n.bus.deliver (oth v.x) now = ({ n.bus with seen := n.bus.seen.set (oth v.x) now }, inc))
     (hp : v.sy.s.poll [] now (n.bus.transmitting (oth v.x) now) (v.sy.rx ++ inc) = .ok c)
     (htx : c.tx = none) (h1 : c.s.p = v.sy.s.p) (h2 : c.s.ring = v.sy.s.ring) (h3 : c.s.online = true)
     (h4 : c.s.pendingBytes = 0) (h5 : c.rx = [])
-    (hph : PhaseOk cfg (v.swap c now) now (n.bus.seen.getD v.x 0)) :
-    ∃ n', n.poll (oth v.x) now = (n', inc, some (.ok c)) ∧ RInv cfg n' (v.swap c now) := by
+    (hph : PhaseOk cfg (v.swap c ly' now) now (n.bus.seen.getD v.x 0)) :
+    ∃ n', n.poll (oth v.x) now = (n', inc, some (.ok c)) ∧ RInv cfg n' (v.swap c ly' now) := by
   unfold View.swap upSt at hph ⊢
   have hp' : v.sy.s.poll v.sy.apps now (Bus.transmitting { n.bus with seen := n.bus.seen.set (oth v.x) now } (oth v.x) now)
       (v.sy.rx ++ inc) = .ok c := by rw [h.oky.apps, transmitting_seen]; exact hp
@@ -467,5 +468,54 @@ theorem rinv_swap_y {cfg : Cfg} {n : Net} {v : View} (h : RInv cfg n v) (now : I
   · simp only
     rw [hoo, seen_set_self _ _ _ hsl, seen_set_other _ _ _ _ (Ne.symm hne)]
     exact hph
+
+/-! ## What the bus delivers in the situations of the invariant -/
+
+theorem BusOk.deliver_own {cfg : Cfg} {b : Bus} {old : List Transmission} {tr : Transmission} (h : BusOk cfg b old tr)
+    (hr : 0 < cfg.rate) (i : Nat) (hi : i < 2) (now : Int) (hs : tr.sender = i) :
+    b.deliver i now = ({ b with seen := b.seen.set i now }, []) :=
+  Bus.deliver_own b i now old tr (h.lastOnly hr i hi) hs
+
+theorem BusOk.deliver_recv {cfg : Cfg} {b : Bus} {old : List Transmission} {tr : Transmission} (h : BusOk cfg b old tr)
+    (hr : 0 < cfg.rate) (i : Nat) (hi : i < 2) (now : Int) (hs : tr.sender ≠ i) (hsn : b.seen.getD i 0 ≤ now) :
+    ∃ inc, b.deliver i now = ({ b with seen := b.seen.set i now }, inc) ∧
+      tr.bytes.take (cvis cfg tr (b.seen.getD i 0)) ++ inc = tr.bytes.take (cvis cfg tr now) := by
+  refine ⟨_, Bus.deliver_last b i now old tr (h.lastOnly hr i hi) h.live hs, ?_⟩
+  have := Bus.take_vis_append b (by rw [h.rate]; exact hr) tr (b.seen.getD i 0) now hsn
+  rw [vis_cfg b cfg h.rate, vis_cfg b cfg h.rate] at this
+  exact this
+
+theorem cvis_full (cfg : Cfg) (tr : Transmission) (a : Int) (hn : 0 < tr.bytes.length)
+    (h : tr.start + (cfg.ce (tr.bytes.length - 1) : Nat) ≤ a) : cvis cfg tr a = tr.bytes.length :=
+  vis_full _ (ce_monoI cfg) _ _ _ hn h
+
+theorem cvis_zero (cfg : Cfg) (tr : Transmission) (a : Int) (h : a < tr.start + (cfg.ce 0 : Nat)) : cvis cfg tr a = 0 :=
+  vis_zero _ (ce_monoI cfg) _ _ _ h
+
+theorem cvis_spec (cfg : Cfg) (tr : Transmission) (a : Int) (k : Nat) (hk : k < tr.bytes.length) :
+    k < cvis cfg tr a ↔ tr.start + (cfg.ce k : Nat) ≤ a :=
+  vis_spec _ (ce_monoI cfg) _ _ _ k hk
+
+theorem cvis_mono (cfg : Cfg) (tr : Transmission) (a a' : Int) (h : a ≤ a') : cvis cfg tr a ≤ cvis cfg tr a' :=
+  vis_mono _ (ce_monoI cfg) _ _ _ _ h
+
+theorem cvis_le (cfg : Cfg) (tr : Transmission) (a : Int) : cvis cfg tr a ≤ tr.bytes.length := visCount_le _ _ _ _
+
+/-- Everything of `tr` has been delivered to station `i` already: nothing more comes. -/
+theorem BusOk.deliver_done {cfg : Cfg} {b : Bus} {old : List Transmission} {tr : Transmission} (h : BusOk cfg b old tr)
+    (hr : 0 < cfg.rate) (i : Nat) (hi : i < 2) (now : Int) (hs : tr.sender ≠ i) (hsn : b.seen.getD i 0 ≤ now)
+    (hn : 0 < tr.bytes.length) (hdone : tr.start + (cfg.ce (tr.bytes.length - 1) : Nat) ≤ b.seen.getD i 0) :
+    b.deliver i now = ({ b with seen := b.seen.set i now }, []) := by
+  obtain ⟨inc, h1, h2⟩ := h.deliver_recv hr i hi now hs hsn
+  rw [cvis_full cfg tr _ hn hdone, cvis_full cfg tr now hn (by omega)] at h2
+  have : inc = [] := by
+    have := congrArg List.length h2
+    simp only [List.length_append] at this
+    exact List.eq_nil_of_length_eq_zero (by omega)
+  rw [h1, this]
+
+theorem BusOk.txEnd_eq {cfg : Cfg} {b : Bus} {old : List Transmission} {tr : Transmission} (h : BusOk cfg b old tr)
+    (t : Transmission) : b.txEnd t = t.start + (cfg.ce (t.bytes.length - 1) : Nat) := by
+  unfold Bus.txEnd; rw [byteEnd_cfg b cfg h.rate]
 
 end PV
